@@ -345,6 +345,11 @@ def version_rules(analysis: Analysis, res: RuleResult) -> None:
             bad = bad or "a path stores the presented version without calling safe_is_version on it first"
         elif any(isinstance(s0.events[i].args[0], V) and s0.events[i].args[0].key() == raw.key() for i in stores):
             bad = bad or "the raw presented value is stored"
+        elif any(e.kind == "catch" for e in s0.events):
+            # the fallback path of the sanitiser: an invalid or older string becomes "1.4" (not whatever the node had)
+            last = s0.events[stores[-1]].args[0]
+            if not (isinstance(last, Const) and last.value == "1.4"):
+                bad = bad or f"an invalid or older presented version does not fall back to \"1.4\" (stored: {repr(last.key())[:60]}): the node keeps the tables of its previous version"
     res.add("C18-R3", "sensor:Sensor.protocol_version / a node's presented version passes the same sanitiser", bad is None and n_paths > 0, "mysensors/sensor.py", f"{sq}: {n_paths} path(s), each stores the result of safe_is_version(value)" if bad is None else bad)
 
 
